@@ -38,6 +38,7 @@ import Relic.Driver.MsiSign
 import Relic.Driver.Dmg
 import Relic.Driver.CHttp
 import Relic.Driver.Readers
+import Relic.Driver.Cosign
 open Relic
 
 def dispatch (line : String) : String :=
@@ -85,6 +86,8 @@ def dispatch (line : String) : String :=
   | "DMG" :: rest => Relic.Driver.Dmg.handle rest
   | "CHTTP" :: rest => Relic.Driver.CHttp.handle rest
   | "RD" :: rest => Relic.Driver.Readers.handle rest
+  | "COSIGN" :: rest => Relic.Driver.Cosign.handleCosign rest
+  | "CAT" :: rest => Relic.Driver.Cosign.handleCat rest
   | _ => "bad-op"
 
 partial def loop (h : IO.FS.Stream) (out : IO.FS.Stream) : IO Unit := do
